@@ -60,11 +60,12 @@ Fixpoint conforms (n : nat) (o : wopts) (e : env) (s : schema) (v : pyval) {stru
     | SRecord nm _ fs => exists kv, v = PDict kv /\ type_hint_ok kv nm /\
                            Forall (field_conforms (conforms n o e) o kv) fs
     | SUnion bs =>
+        (* some branch; a dict carrying a "-type" entry only counts for the record branch of that name ([hint_pass]) *)
         match v with
         | PTuple l =>
-            if disable_tuple o then Exists (fun b => conforms n o e b v) bs
+            if disable_tuple o then Exists (fun b => hint_pass e v b = true /\ conforms n o e b v) bs
             else exists name x b, l = [PStr name; x] /\ first_named name bs = Some b /\ conforms n o e b x
-        | _ => Exists (fun b => conforms n o e b v) bs
+        | _ => Exists (fun b => hint_pass e v b = true /\ conforms n o e b v) bs
         end
     | SRef nm => exists s', lookup e nm = Some s' /\ conforms n o e s' v
     | SAnnot _ s' => conforms n o e s' v
@@ -136,10 +137,11 @@ Section RLoops.
     end.
   (* for s in schema: try: if _validate(...): return True; except ValidationError: collect
      ... raise ValidationError( errors ) *)
-  Fixpoint rany_branch (v : pyval) (bs : list schema) : vres :=
+  Fixpoint rany_branch (pass : schema -> bool) (v : pyval) (bs : list schema) : vres :=
     match bs with
     | [] => VRaised
-    | s :: bs => match rec s (Some v) with VTrue => VTrue | VRaised => rany_branch v bs | r => r end
+    | s :: bs => if negb (pass s) then rany_branch pass v bs        (* "-type" names another branch: continue *)
+                 else match rec s (Some v) with VTrue => VTrue | VRaised => rany_branch pass v bs | r => r end
     end.
   Fixpoint rhinted (name : pyval) (v : pyval) (bs : list schema) : vres :=
     match bs with
@@ -192,12 +194,12 @@ Fixpoint validate_raise (f : nat) (o : wopts) (e : env) (s : schema) (ov : optio
       | SUnion bs =>
           match v with
           | PTuple l =>
-              if disable_tuple o then rany_branch (validate_raise f o e) v bs
+              if disable_tuple o then rany_branch (validate_raise f o e) (hint_pass e v) v bs
               else match l with
                    | [name; v'] => rhinted (validate_raise f o e) name v' bs
                    | _ => VRaised                       (* len(datum) != 2: return False; _validate raises *)
                    end
-          | _ => rany_branch (validate_raise f o e) v bs
+          | _ => rany_branch (validate_raise f o e) (hint_pass e v) v bs
           end
       | SRef n => match lookup e n with Some s' => validate_raise f o e s' (Some v) | None => VErr end
       | SAnnot _ s' => validate_raise f o e s' (Some v)
@@ -275,9 +277,7 @@ Definition shared_of (e : env) (v : pyval) (c : schema) : Z :=
     and narrowing to binary32 does not overflow under "float"); (2) every field that is absent without a
     default has a type write_record's _accepts_null recognises (null, dict-form null, a union with such a branch);
     (3) at every union the validator gives a verdict (no foreign exception, enough fuel [n]) on every branch
-    the search may try, and a "-type" entry of the datum names every branch the datum validates against (a dict
-    carrying "-type": "B" that validates only as a map is accepted by validate but the writer looks for record B).
-    Under a union the conditions are required for every branch. *)
+    the search may try.  Under a union the conditions are required for every branch. *)
 Definition dbl_ok (v : pyval) : Prop := forall z, v = PInt z -> exists d, z2d z = Ok d.
 Definition flt_ok (v : pyval) : Prop := forall b, to_double v = WOk b -> exists x, d2s b = Ok x.
 
@@ -310,9 +310,9 @@ Fixpoint wdom (n : nat) (o : wopts) (e : env) (s : schema) (v : pyval) {struct n
         match v with
         | PTuple l =>
             if disable_tuple o
-            then Forall (fun c => (exists b, validate n o e c (Some v) = Ok b /\ (b = true -> hint_pass e v c = true)) /\ wdom n o e c v) bs
+            then Forall (fun c => (exists b, validate n o e c (Some v) = Ok b) /\ wdom n o e c v) bs
             else forall name x b, l = [PStr name; x] -> first_named name bs = Some b -> wdom n o e b x
-        | _ => Forall (fun c => (exists b, validate n o e c (Some v) = Ok b /\ (b = true -> hint_pass e v c = true)) /\ wdom n o e c v) bs
+        | _ => Forall (fun c => (exists b, validate n o e c (Some v) = Ok b) /\ wdom n o e c v) bs
         end
     | SRef nm => forall s', lookup e nm = Some s' -> wdom n o e s' v
     | SAnnot _ s' => wdom n o e s' v
